@@ -210,6 +210,16 @@ func c13Jobs(tier string) []*Job {
 		sps.Peers = []int{0, 1, 2, 3}
 		sps.Proposals = "A"
 		jobs = append(jobs, job(e2WatchScen("E2-watchflag-x2-standby-"+amevName(a), 4, 2, false, a, false, 4, sps), per))
+		// the same at a height where the watch-only node's index is the primary's: the proposal carries its own index
+		// (sent by the active twin, or by itself before it was restarted in watch-only mode) and comes back directly or
+		// inside a recovery message
+		spp := sps
+		spp.OwnIndexProps = true
+		spp.Views, spp.CVs, spp.RecReq, spp.Commits = 1, 0, false, "A"
+		if a >= 0 {
+			spp.PreCommits = "A"
+		}
+		jobs = append(jobs, job(e2WatchScen("E2-watchflag-x2-standby-of-primary-"+amevName(a), 4, 2, false, a, false, 5, spp), per))
 		spo := sp
 		spo.Peers = nil
 		jobs = append(jobs, job(e2WatchScen("E2-outside-"+amevName(a), 4, 0, true, a, false, 4, spo), per))
@@ -354,6 +364,12 @@ func c11Jobs(tier string) []*Job {
 	sc.ValSets = [][]int{{0, 1, 2, 3}, {3, 2, 1, 0, 4, 5, 6}, {6, 2}}
 	sc.Sweep = true
 	jobs = append(jobs, job(sc, per))
+	// ... and shrinks: 7 validators now, 4 at the next height (early next-height payloads from indices 4..6 of today's list)
+	sps := E2Spec{Views: 1, Proposals: "A", Responses: "A", RespPeers: 2, Commits: "A", NextHeight: true, Skip1: true, Heights: 2, MaxDepth: 10, StateCap: cap}
+	scs := e2scen("C11-sweep-shrinking-validators", 7, 2, -1, sps)
+	scs.ValSets = [][]int{{0, 1, 2, 3, 4, 5, 6}, {3, 2, 1, 0}, {3, 2, 1, 0}}
+	scs.Sweep = true
+	jobs = append(jobs, job(scs, per))
 	return jobs
 }
 
@@ -385,7 +401,7 @@ func c05Jobs(tier string) []*Job {
 	for _, a := range []int64{-1, 0, 6} {
 		pc := ""
 		if a >= 0 {
-			pc = "A"
+			pc = "AG" // G: the only pre-commit that can exist before X knows the tip of the next height
 		}
 		for _, x := range []int{3, 2} { // 3: backup at heights 5 and 6; 2: backup at 5, primary at 6
 			sp := E2Spec{Views: 1, Proposals: "A", Responses: "A", RespPeers: 2, Commits: "AG", PreCommits: pc, CVs: 1, NextHeight: true, OldHeight: true, Skip: true, Bundles: true,
@@ -440,12 +456,20 @@ func c05Jobs(tier string) []*Job {
 	sc.Twin = true
 	sc.Missing, sc.BadTx = map[int][]H{}, map[int][]H{}
 	jobs = append(jobs, job(sc, per))
+	// the validator list shrinks (7 -> 4): early payloads from indices that do not exist any more at the new height
+	spsh := E2Spec{Views: 1, Proposals: "A", Responses: "A", RespPeers: 2, Commits: "A", NextHeight: true, Skip1: true, Heights: 2, MaxDepth: 10, StateCap: cap}
+	scsh := e2scen("C05-twin-shrinking-validators", 7, 2, -1, spsh)
+	scsh.ValSets = [][]int{{0, 1, 2, 3, 4, 5, 6}, {3, 2, 1, 0}, {3, 2, 1, 0}}
+	scsh.Twin = true
+	scsh.Missing, scsh.BadTx = map[int][]H{}, map[int][]H{}
+	jobs = append(jobs, job(scsh, per))
 	// dynamic block time configured, empty pool and empty proposals: the transaction subscription (taken on the first
 	// timeout of an idle backup / primary) is per-height state too
 	for _, x := range []int{3, 2} {
 		spd := E2Spec{Views: 1, Proposals: "A", Responses: "A", RespPeers: 2, Commits: "A", CVs: 1, NextHeight: true, Skip: true, Heights: 2, MaxDepth: 16, StateCap: cap, TxA: []H{}}
 		scd := e2scen(fmt.Sprintf("C05-twin-N4-x%d-dynamic-block-time", x), 4, x, -1, spd, withPool())
 		scd.MaxTimePerBlock = 30e9
+		scd.TimeVar = true // "timing taken afresh from the callbacks": both block times change from height to height
 		scd.Twin = true
 		scd.Missing, scd.BadTx = map[int][]H{}, map[int][]H{}
 		jobs = append(jobs, job(scd, per))
